@@ -35,6 +35,8 @@ type Verifier struct {
 	substrAx    bool
 	funcIDs     map[*ssa.Function]Term
 	defFuns     map[string]string
+	oldRefs     map[Term]bool
+	entryReads  map[Term]bool
 
 	derived map[string]int // embedded struct field -> index (global, stable within a run)
 
@@ -194,6 +196,8 @@ func (v *Verifier) verifyFunction(key string) (res *FuncResult) {
 	v.substrAx = false
 	v.funcIDs = map[*ssa.Function]Term{}
 	v.defFuns = map[string]string{}
+	v.oldRefs = map[Term]bool{}
+	v.entryReads = map[Term]bool{}
 	baseCounter = 0
 	defer func() {
 		if r := recover(); r != nil {
@@ -286,11 +290,14 @@ func (v *Verifier) allocatedFact(c *Ctx, pv Val, nxt Term) {
 	switch pv.K {
 	case KRef, KMap, KArr:
 		c.assert(lt(pv.A, nxt), "parameter allocated")
+		v.oldRefs[pv.A] = true
 	case KSlice:
 		c.assert(lt(pv.A, nxt), "parameter allocated")
+		v.oldRefs[pv.A] = true
 	case KLoc:
 		if pv.Loc.Ref != "" {
 			c.assert(lt(pv.Loc.Ref, nxt), "parameter allocated")
+			v.oldRefs[pv.Loc.Ref] = true
 		}
 	case KStruct:
 		for _, f := range pv.Fields {
